@@ -25,8 +25,13 @@ NEIGHBOUR_KINDS = [
     "levels.list", "levels.reorder", "levels.superset", "modes", "meas_pt",
     "srf_bg_conc", "footprint", "analytic", "halo.none", "halo.resolved",
     "halo.other", "halo.zero", "halo.subcell", "precision",
+    # value combinations an ambiguous / rounded / subsampled key would confuse
+    "levels.digits", "meas_pt.tiny", "domain.tiny", "z.tiny", "profiles.tiny", "profiles.elem", "z.elem", "halo.tiny", "srf_bg_conc.tiny",
+    # representations of the same values (results identical; exercises effectiveness)
+    "levels.asarray", "repr.np", "repr.int",
 ]
 KIND_TO_PARAM = {k: k.split(".")[0] for k in NEIGHBOUR_KINDS}
+SAME_RESULT_KINDS = {"levels.asarray", "repr.np", "repr.int", "srf_flx.values"}
 
 
 def signature_params():
@@ -38,7 +43,7 @@ def signature_params():
 def base_spec(rng):
     ny = rng.choice([8, 9, 10, 12, 13, 16])
     nx = rng.choice([8, 10, 11, 12, 15, 16])
-    nz = rng.choice([4, 5, 6])
+    nz = rng.choice([4, 5, 6, 4, 5, 6, 13])
     xmax = rng.choice([80.0, 100.0, 120.0])
     ymax = rng.choice([60.0, 90.0, 100.0])
     kind = rng.choice(["const", "aniso", "shear", "most_unstable", "most_stable"])
@@ -50,7 +55,8 @@ def base_spec(rng):
         "K": rng.choice([0.5, 1.0, 1.5]),
         "prof_scale": [1.0, 1.0, 1.0, 1.0, 1.0],
         "domain": [xmax, ymax],
-        "levels": rng.choice([nz - 1, nz - 2, 1, [1, nz - 1], [0, 2, nz - 1], list(range(nz))]),
+        "levels": rng.choice([nz - 1, nz - 2, 1, [1, nz - 1], [0, 2, nz - 1], list(range(nz))] + ([[1, 12], [1, 12]] if nz == 13 else [])),
+        "prof_elem": None, "z_elem": None, "repr": None,
         "modes": rng.choice([[4, 4], [6, 4], [8, 8], [8, 6]]),
         "meas_pt": [rng.choice([0.0, 10.0, 33.0]), rng.choice([0.0, 5.0, 21.0])],
         "bg": rng.choice([0.0, 0.0, 2.5]),
@@ -133,21 +139,42 @@ def _build_args(spec):
     z, prof = _profiles(spec, z)
     z = z * spec["z_scale"]
     prof = [np.ascontiguousarray(p * s, dtype=np.float64) for p, s in zip(prof, spec["prof_scale"])]
+    if spec.get("prof_elem"):
+        pi, ei, f = spec["prof_elem"]
+        prof[pi][ei % len(prof[pi])] *= f
+    if spec.get("z_elem"):
+        ei, f = spec["z_elem"]
+        z = z.copy()
+        k = 1 + ei % (len(z) - 2)
+        z[k] = z[k] + f * (z[k + 1] - z[k])  # stays strictly between its neighbours
     levels = spec["levels"]
     if isinstance(levels, dict):  # {"array": [...]} -> ndarray levels
         levels = np.array(levels["array"], dtype=np.int64)
     elif isinstance(levels, list):
         levels = list(levels)
     halo = spec["halo"]
+    domain = (spec["domain"][0], spec["domain"][1])
+    meas_pt = (spec["meas_pt"][0], spec["meas_pt"][1])
+    bg = spec["bg"]
+    rep = spec.get("repr")
+    if rep == "np":
+        domain = tuple(np.float64(v) for v in domain)
+        meas_pt = np.array(meas_pt, dtype=np.float64)
+        bg = np.float64(bg)
+        halo = None if halo is None else np.float64(halo)
+    elif rep == "int":
+        domain = tuple(int(v) if float(v).is_integer() else v for v in domain)
+        meas_pt = tuple(int(v) if float(v).is_integer() else v for v in meas_pt)
+        halo = halo if halo is None or not float(halo).is_integer() else int(halo)
     return dict(
         srf_flx=srf,
         z=np.ascontiguousarray(z, dtype=np.float64),
         profiles=tuple(prof),
-        domain=(spec["domain"][0], spec["domain"][1]),
+        domain=domain,
         levels=levels,
         modes=(spec["modes"][0], spec["modes"][1]),
-        meas_pt=(spec["meas_pt"][0], spec["meas_pt"][1]),
-        srf_bg_conc=spec["bg"],
+        meas_pt=meas_pt,
+        srf_bg_conc=bg,
         footprint=spec["footprint"],
         analytic=spec["analytic"],
         halo=halo,
@@ -157,6 +184,8 @@ def _build_args(spec):
 
 def _levels_list(spec):
     lv = spec["levels"]
+    if isinstance(lv, dict):
+        return list(lv["array"])
     return list(lv) if isinstance(lv, list) else [lv]
 
 
@@ -174,7 +203,7 @@ def neighbour(spec, kind, rng):
             s["nx"] = spec["nx"] + rng.choice([-2, -1, 1, 2])
     elif kind == "z":
         s["z_scale"] = spec["z_scale"] * rng.choice([0.9, 1.1, 1.25])
-    elif kind.startswith("profiles."):
+    elif kind in ("profiles.u", "profiles.v", "profiles.Kx", "profiles.Ky", "profiles.Kz"):
         i = ["u", "v", "Kx", "Ky", "Kz"].index(kind.split(".")[1])
         s["prof_scale"][i] = spec["prof_scale"][i] * rng.choice([0.8, 1.2, 1.5])
         if i == 1 and spec["V"] == 0.0 and spec["prof"] in ("const", "aniso", "shear"):
@@ -251,6 +280,42 @@ def neighbour(spec, kind, rng):
         s["halo"] = 0.0
     elif kind == "precision":
         s["precision"] = "single" if spec["precision"] == "double" else "double"
+    elif kind == "levels.digits":
+        # same decimal digits, different levels: "1"+"12" == "11"+"2"
+        if nz < 13:
+            return None
+        cur = _levels_list(spec)
+        s["levels"] = [11, 2] if cur == [1, 12] else [1, 12]
+    elif kind == "meas_pt.tiny":
+        j = rng.randrange(2)
+        s["meas_pt"][j] = spec["meas_pt"][j] + rng.choice([1e-7, 3e-6])
+    elif kind == "domain.tiny":
+        j = rng.randrange(2)
+        s["domain"][j] = spec["domain"][j] * (1.0 + rng.choice([1e-9, 1e-7]))
+    elif kind == "halo.tiny":
+        h = spec["halo"] if spec["halo"] is not None else max(spec["domain"])
+        s["halo"] = h * (1.0 + 1e-9)
+    elif kind == "srf_bg_conc.tiny":
+        s["bg"] = spec["bg"] + 1e-7
+    elif kind == "z.tiny":
+        s["z_scale"] = spec["z_scale"] * (1.0 + rng.choice([1e-9, 1e-7]))
+    elif kind == "profiles.tiny":
+        i = rng.randrange(5)
+        s["prof_scale"][i] = spec["prof_scale"][i] * (1.0 + rng.choice([1e-9, 1e-7]))
+    elif kind == "profiles.elem":
+        s["prof_elem"] = [rng.choice([0, 2, 3, 4]), rng.randrange(nz), rng.choice([1.3, 0.7])]
+    elif kind == "z.elem":
+        if nz < 3:
+            return None
+        s["z_elem"] = [rng.randrange(nz), rng.choice([0.3, 0.6])]
+    elif kind == "levels.asarray":
+        if isinstance(spec["levels"], dict):
+            return None
+        s["levels"] = {"array": _levels_list(spec)}
+    elif kind == "repr.np":
+        s["repr"] = None if spec.get("repr") == "np" else "np"
+    elif kind == "repr.int":
+        s["repr"] = None if spec.get("repr") == "int" else "int"
     else:
         raise ValueError(kind)
     if canon(s) == canon(spec):
@@ -267,6 +332,7 @@ def diff_params(a, b):
         "V": "profiles", "K": "profiles", "prof_scale": "profiles", "domain": "domain",
         "levels": "levels", "modes": "modes", "meas_pt": "meas_pt", "bg": "srf_bg_conc",
         "footprint": "footprint", "analytic": "analytic", "halo": "halo", "precision": "precision",
+        "prof_elem": "profiles", "z_elem": "z", "repr": "representation",
     }
     for k in set(a) | set(b):
         if a.get(k) != b.get(k):
